@@ -5,9 +5,11 @@ import (
 	"go/token"
 	"go/types"
 	"math"
+	"sort"
 	"strconv"
 	"strings"
 	"sync"
+	"unicode"
 
 	"golang.org/x/text/unicode/norm"
 	"golang.org/x/tools/go/ssa"
@@ -18,6 +20,11 @@ type ErrV struct {
 	Msg StrV
 	id  int
 }
+
+// ReflVal is the result of the reflect.ValueOf stub (only Pointer() is modelled).
+type ReflVal struct{ u *Union }
+
+var synthRType = types.NewNamed(types.NewTypeName(token.NoPos, nil, "verifRType", nil), types.NewStruct(nil, nil), nil)
 
 var synthErrType = types.NewNamed(types.NewTypeName(token.NoPos, nil, "verifErr", nil), types.NewStruct(nil, nil), nil)
 
@@ -519,6 +526,48 @@ func (w *Worker) intrinsic(st *State, f *Frame, x ssa.Value, callee *ssa.Functio
 		set(Tuple{mkBV(0, 64), nilUnion()})
 	case "(*strings.Builder).String":
 		set(st.builders[args[0].(Ptr).id])
+	case "reflect.TypeOf":
+		u := args[0].(*Union)
+		out := mkUnion(synthRType, u.Tag)
+		out.Tag = mkIte(u.isKind(KNil), mkBV(KNil, 8), out.Tag)
+		set(out)
+	case "reflect.ValueOf":
+		set(ReflVal{args[0].(*Union)})
+	case "(reflect.Value).Pointer":
+		u := args[0].(ReflVal).u
+		addr := mkBV(0, 64)
+		for _, k := range u.kindsSorted() {
+			var a uint64
+			switch p := u.P[k].(type) {
+			case SliceV:
+				if p.id != 0 {
+					a = uint64(p.id)<<20 + uint64(p.off)*16
+				}
+			case MapV:
+				a = uint64(p.id) << 20
+			case Ptr:
+				a = uint64(p.id)<<20 + uint64(len(p.path))
+			default:
+				continue
+			}
+			addr = mkIte(u.isKind(k), mkBV(a, 64), addr)
+		}
+		set(addr)
+	case "sort.Strings":
+		sl := args[0].(SliceV)
+		elems := st.sliceElems(sl)
+		strs := make([]string, len(elems))
+		for i, e := range elems {
+			c, ok := e.(StrV).concrete()
+			if !ok {
+				panic(engineErr("sort.Strings on symbolic strings"))
+			}
+			strs[i] = c
+		}
+		sort.Strings(strs)
+		for i := range elems {
+			elems[i] = strLit(strs[i])
+		}
 	case "strings.Contains":
 		a, b := args[0].(StrV), args[1].(StrV)
 		ca, oka := a.concrete()
@@ -566,12 +615,7 @@ func (w *Worker) intrinsic(st *State, f *Frame, x ssa.Value, callee *ssa.Functio
 			set(strLit(strings.TrimPrefix(ca, cb)))
 		}
 	case "strings.TrimSpace":
-		s := args[0].(StrV)
-		if c, ok := s.concrete(); ok {
-			set(strLit(strings.TrimSpace(c)))
-		} else {
-			set(atom(app(STxt, "txtTrim", s.toTxt())))
-		}
+		set(trimSpaceStr(args[0].(StrV)))
 	case "(golang.org/x/text/unicode/norm.Form).String":
 		s := args[1].(StrV)
 		form, ok := args[0].(Term).intVal()
@@ -784,4 +828,39 @@ func (w *Worker) resolveUnion(st *State, u *Union) *Union {
 		return nilUnion()
 	}
 	return &Union{Tag: mkBV(uint64(k), 8), P: map[int]Value{k: u.P[k]}}
+}
+
+// trimSpaceStr: strings.TrimSpace. Concrete white space at either end is removed for real;
+// an opaque core is wrapped as txtTrim(core) (idempotent, so already-trimmed cores are kept).
+func trimSpaceStr(s StrV) StrV {
+	if c, ok := s.concrete(); ok {
+		return strLit(strings.TrimSpace(c))
+	}
+	segs := append([]Seg{}, s.Segs...)
+	for len(segs) > 0 && segs[0].K == SegLit {
+		t := strings.TrimLeftFunc(segs[0].Lit, unicode.IsSpace)
+		if t == "" {
+			segs = segs[1:]
+			continue
+		}
+		segs[0] = Seg{K: SegLit, Lit: t}
+		break
+	}
+	for len(segs) > 0 && segs[len(segs)-1].K == SegLit {
+		t := strings.TrimRightFunc(segs[len(segs)-1].Lit, unicode.IsSpace)
+		if t == "" {
+			segs = segs[:len(segs)-1]
+			continue
+		}
+		segs[len(segs)-1] = Seg{K: SegLit, Lit: t}
+		break
+	}
+	core := StrV{segs}
+	if c, ok := core.concrete(); ok {
+		return strLit(c)
+	}
+	if len(segs) == 1 && segs[0].K == SegAtom && strings.HasPrefix(segs[0].T.S, "(txtTrim ") {
+		return core
+	}
+	return atom(app(STxt, "txtTrim", core.toTxt()))
 }
